@@ -13,12 +13,12 @@ def plan(tier):
         I.append(inst(f"point_along[n=2,kernel-sign={s}]", 'harness.c13', 'point_along', dict(n=2), opts=dict(fix={"_k1_e0": s}), weight=50, timeout_s=1200))
         I.append(inst(f"reach-target[n=2,kernel-sign={s}]", 'harness.c13', 'reach_target', dict(n=2), opts=dict(fix={"_k1_e0": s}), weight=80, timeout_s=1500))
         if True:
-            I.append(inst(f"tangent-origin_to[n=2,kernel-sign={s}]", 'harness.c13', 'tangent_origin_to', dict(n=2), opts=dict(fix={"_k1_e0": s}), weight=200, timeout_s=2400))
+            I.append(inst(f"tangent-origin_to[n=2,kernel-sign={s}]", 'harness.c13', 'tangent_origin_to', dict(n=2), opts=dict(fix={"_k1_e0": s}), weight=200, timeout_s=1500))
     I.append(inst("angle-general-vectors[n=2]", 'harness.c13', 'angle_general', dict(n=2), weight=60, timeout_s=1200))
     I.append(inst("regular-polygon[n=4,by=angle,dimension=3]", 'harness.c13', 'regular_polygon', dict(sides=4, by='angle', dimension=3), weight=60, timeout_s=1500, opts=dict(nspare=40)))
     I.append(inst("angle-law-of-cosines[n=2]", 'harness.c13', 'angle', dict(n=2), weight=100, timeout_s=1500))
     if not q:
-        I.append(inst("angle-law-of-cosines[n=3]", 'harness.c13', 'angle', dict(n=3), weight=400, timeout_s=3000))
+        I.append(inst("angle-law-of-cosines[n=3]", 'harness.c13', 'angle', dict(n=3), weight=400, timeout_s=1500))
     for sides in ([3, 4, 6] if q else [3, 4, 5, 6, 7, 8]):
         for by in ('angle', 'radius'):
             I.append(inst(f"regular-polygon[n={sides},by={by}]", 'harness.c13', 'regular_polygon', dict(sides=sides, by=by), weight=10 * sides, timeout_s=1500, opts=dict(nspare=40)))
